@@ -86,3 +86,33 @@ pub mod ct {
     schema_harness!(ws_opt, Option<u8>, 11, 0);
     schema_harness!(ws_struct, SqPackedC, 11, 0);
 }
+
+/// Time types, bounded (the full 2^64-second range needs 128-bit division by 10^9, which CBMC's
+/// bit-blasting does not finish: 16-bit seconds take ~10 min): seconds < 2^16, every nanosecond value.
+pub mod tt {
+    use super::*;
+    kproof!(duration_secs16, 4, {
+        let secs: u64 = kani::any();
+        let nanos: u32 = kani::any();
+        kani::assume(nanos < 1_000_000_000 && secs < (1u64 << 16));
+        let d = std::time::Duration::new(secs, nanos);
+        let (buf, n) = ser::<std::time::Duration, 32>(&d, 0).unwrap();
+        assert!(n == 16, "C01: Duration is written as 16 bytes");
+        let (y, left) = de::<std::time::Duration>(&buf[..n], 0).unwrap();
+        assert!(left == 0 && y == d, "C01: Duration does not round-trip");
+        kani::cover!(true, "reached end");
+    });
+    kproof!(systemtime_secs12, 4, {
+        let secs: u64 = kani::any();
+        let nanos: u32 = kani::any();
+        let before: bool = kani::any();
+        kani::assume(nanos < 1_000_000_000 && secs < (1u64 << 12));
+        let d = std::time::Duration::new(secs, nanos);
+        let t = if before { std::time::SystemTime::UNIX_EPOCH - d } else { std::time::SystemTime::UNIX_EPOCH + d };
+        let (buf, n) = ser::<std::time::SystemTime, 32>(&t, 0).unwrap();
+        assert!(n == 16, "C01: SystemTime is written as 16 bytes");
+        let (y, left) = de::<std::time::SystemTime>(&buf[..n], 0).unwrap();
+        assert!(left == 0 && y == t, "C01: SystemTime does not round-trip");
+        kani::cover!(true, "reached end");
+    });
+}
